@@ -87,6 +87,54 @@ def run(ctx):
     ctx.compare("nodes", cases, obs, reqs)
     from props import graphs
     graphs.flatten_inferred(ctx, ref_flatten)
+    # chains of *annotated* Flatten nodes inside a graph, edge list in arbitrary order, through the dict and file forms
+    import nir
+    from core import file_roundtrip, impl_construct
+    for _ in range(ctx.n(60)):
+        shp = gen.shape(rng, rank=rng.randrange(2, 5), lo=1, hi=5)
+        nodes = [["in", {"type": "Input", "kwargs": [["input_type", gen.shape_arg(rng, shp, "input")]]}]]
+        want, cur = {}, list(shp)
+        for j in range(rng.randrange(2, 4)):
+            r = len(cur)
+            a = rng.randrange(0, r); b = rng.randrange(a, r)
+            sd = a if rng.random() < 0.5 else a - r
+            ed = b if rng.random() < 0.5 else b - r
+            out = ref_flatten(cur, a, b)
+            nodes.append([f"f{j}", {"type": "Flatten", "kwargs": [["input_type", gen.shape_arg(rng, cur, "input")],
+                                                                   ["start_dim", gen.pyint(sd)], ["end_dim", gen.pyint(ed)]]}])
+            want[f"f{j}"] = (list(cur), list(out))
+            cur = list(out)
+        nodes.append(["out", {"type": "Output", "kwargs": [["output_type", gen.shape_arg(rng, cur, "output")]]}])
+        names = [n for n, _ in nodes]
+        edges = [[a, b] for a, b in zip(names, names[1:])]
+        rng.shuffle(edges)
+        if rng.random() < 0.5:
+            rng.shuffle(nodes)
+        g = {"type": "NIRGraph", "nodes": nodes, "edges": edges, "meta": None}
+        case = {"op": "flatten_chain", "graph": g}
+        ctx.case(case); ctx.count("flatten_chains")
+        try:
+            graph = impl_construct(g)
+        except Exception as e:  # noqa
+            ctx.violate(case, "a chain of valid Flatten nodes was rejected", {"site": "Flatten", "what": "chain-rejected"},
+                        observed=err_name(e)); continue
+        for how in ("dict", "file"):
+            try:
+                g2 = nir.NIRGraph.from_dict(graph.to_dict()) if how == "dict" else file_roundtrip(graph)
+                bad = {k: (_ints(g2.nodes[k].input_type["input"]), _ints(g2.nodes[k].output_type["output"]))
+                       for k, w in want.items()
+                       if (_ints(g2.nodes[k].input_type["input"]), _ints(g2.nodes[k].output_type["output"])) != w}
+            except Exception as e:  # noqa
+                bad = {"raised": f"{type(e).__name__}: {e}"}
+            if bad:
+                ctx.violate(case, f"Flatten types inside a graph are not preserved by the {how} round trip",
+                            {"site": "Flatten", "what": f"chain-{how}-roundtrip"}, observed=bad,
+                            required={k: w for k, w in want.items() if k in bad})
+                break
+
+
+def _ints(v):
+    return None if v is None else [int(x) for x in np.asarray(v).ravel()]
 
 
 def _shape_of(j):
